@@ -46,6 +46,18 @@
         old(retain)@.union(self.updated.view()@.dom()).subset_of(retain@),
         lists_seq(it.seq(), self.collector.working_dir.p),
         layout(self.collector.working_dir.p),
+//@ fn RunFailed::fatal
+//@ spec
+    ensures res.fatal,
+//@ fn RunFailed::retry
+//@ spec
+    ensures !res.fatal,
+//@ fn RunFailed::is_fatal
+//@ spec
+    ensures res == self.fatal,
+//@ fn RunFailed::should_retry
+//@ spec
+    ensures res == !self.fatal,
 //@ global
 // Entries directly in the RRDP working directory are not archives.
 spec fn layout(wd: Path) -> bool {
